@@ -105,3 +105,156 @@ def record_rule_case(cid, func, lin, modes, mods, cnt=1, origin='tlc'):
     events = [{'a': 'setgram', 'gram': dump_gram(gram)}]
     events.extend(bin_events(mods, gram, modes))
     return {'id': cid, 'origin': origin, 'events': events, 'tags': []}
+
+
+# --------------------------------------------------------------------------
+# grammar files (C09): lexical records only
+import copy
+import os
+import re
+import shutil
+import subprocess
+import tempfile
+
+from . import core
+
+
+def _lines(path):
+    with open(path, encoding='utf-8') as f:
+        return [ln for ln in f.read().split('\n') if ln.strip() != '']
+
+
+def pmcfg_records(path, atoms):
+    out = []
+    for ln in _lines(path):
+        toks = ln.split()
+        rec = {'toks': [atoms.abst(t) for t in toks], 'cnt': -1, 'pairs': []}
+        if len(toks) == 2 and toks[1].isdigit():
+            rec['cnt'] = int(toks[1])
+        if len(toks) >= 2 and toks[1] == '->':
+            rec['pairs'] = [[int(x) for x in t.split(':')] for t in toks[2:]]
+        out.append(rec)
+    return out
+
+
+def rcg_records(path, atoms):
+    out = []
+    for ln in _lines(path):
+        toks = ln.split()
+        cnt = int(toks[0].split(':')[1]) if ':' in toks[0] and toks[0].split(':')[1].isdigit() else -1
+        preds = []
+        for t in toks[1:2] + toks[3:]:
+            i = t.find('(')
+            args = t[i + 1:-1].split(',') if i >= 0 else []
+            nm = t[:i] if i >= 0 else t
+            nm_a = atoms.abst(nm)
+            for k in range(1, len(nm)):
+                if nm[-k:].isdigit() and nm[:-k] in atoms.c2a:   # predicate name = symbol + arity digits
+                    nm_a = atoms.abst(nm[:-k]) + nm[-k:]
+                    break
+                if not nm[-k:].isdigit():
+                    break
+            preds.append({'name': nm_a,
+                          'args': [[int(x) for x in re.findall(r'\[(\d+)\]', a)] for a in args]})
+        out.append({'cnt': cnt, 'arrow': toks[2] if len(toks) > 2 else '~', 'preds': preds})
+    return out
+
+
+def tok_records(path, atoms):
+    out = []
+    for ln in _lines(path):
+        toks = ln.split()
+        out.append({'toks': [atoms.abst(t) for t in toks],
+                    'nums': [int(t) if t.isdigit() else -1 for t in toks]})
+    return out
+
+
+def record_files_case(cid, Ts, binmode, mods, seed, with_cli=False, origin='random'):
+    mods = mods or treeio.repo_modules()
+    g = mods['grammar']
+    go = mods['grammaroutput']
+    gi = mods['grammarinput']
+    to = mods['treeoutput']
+    rnd = random.Random(seed)
+    atoms = treeio.Atoms(seed, exotic=True)
+    gram, lex = {}, {}
+    events = []
+    tmp = tempfile.mkdtemp(prefix='vf_gf_')
+    try:
+        roots = []
+        for k, T in enumerate(Ts):
+            root = treeio.build(T, mods, atoms, rnd)
+            root.data['sid'] = k + 1
+            roots.append(root)
+            dmp = treeio.Dumper(atoms)
+            ev = {'a': 'extract', 'tree': dmp.dump(root)}
+            g.extract(root, gram, lex)
+            ev.update({'res': 'ok', 'gram': dump_gram(gram), 'lex': dump_lex(lex, atoms),
+                       'cf': 'T' if mods['grammaranalysis'].is_contextfree(gram) else 'F', 'fo': []})
+            events.append(ev)
+        treebank_gram = gram
+        if binmode:
+            gram = call_binarize(mods, gram, MODES[binmode])
+            events.append({'a': 'setgram', 'gram': dump_gram(gram)})
+            # setgram resets the spec's lexicon; re-establish it through the event
+            events[-1]['keeplex'] = 'T'
+        words = sorted(lex)
+        common = {'words': [atoms.abst(w_) for w_ in words],
+                  'caps': [atoms.abst(w_) for w_ in words if w_[0].isupper()]}
+
+        def write(fmt, lig):
+            ev = dict(common, a='write', fmt=fmt, lig='T' if lig else 'F', files={})
+            dest = os.path.join(tmp, '%s_%s' % (fmt, 'lig' if lig else 'lex'))
+            try:
+                with contextlib.redirect_stderr(io.StringIO()):
+                    getattr(go, fmt)(copy.deepcopy(gram), copy.deepcopy(lex), dest, 'utf-8',
+                                     **({'lex_in_grammar': True} if lig else {}))
+                ev['res'] = 'ok'
+                if fmt == 'pmcfg':
+                    ev['files']['pmcfg'] = pmcfg_records(dest + '.pmcfg', atoms)
+                elif fmt == 'rcg':
+                    ev['files']['rcg'] = rcg_records(dest + '.rcg', atoms)
+                else:
+                    for ext in ('gram', 'start', 'oc', 'OC'):
+                        ev['files'][ext] = tok_records(dest + '.' + ext, atoms)
+                if not lig or fmt == 'lopar':
+                    ev['files']['lex'] = tok_records(dest + '.lex', atoms)
+            except Exception as ex:
+                ev['res'] = 'exc'
+                ev['exc'] = type(ex).__name__ + ': ' + str(ex)[:80]
+            events.append(ev)
+            return dest
+        write('pmcfg', False)
+        write('pmcfg', True)
+        rdest = write('rcg', False)
+        ev = {'a': 'read_rcg'}
+        try:
+            g2, l2 = gi.rcg(rdest, 'utf-8')
+            ev.update({'res': 'ok', 'gram': dump_gram(g2), 'lex': dump_lex(l2, atoms)})
+        except Exception as ex:
+            ev.update({'res': 'exc', 'exc': type(ex).__name__ + ': ' + str(ex)[:80], 'gram': [], 'lex': []})
+        events.append(ev)
+        write('rcg', True)
+        write('lopar', False)
+        if with_cli:
+            def cli(args, src):
+                dest = os.path.join(tmp, 'cli_' + src)
+                p = subprocess.run([core.VENV_PY, os.path.join(core.REPO, 'treetools'), 'grammar'] + args(dest),
+                                   stdout=subprocess.PIPE, stderr=subprocess.PIPE, cwd=tmp)
+                ev = {'a': 'cli', 'src': src, 'rc': p.returncode, 'files': {'pmcfg': [], 'lex': []}}
+                if p.returncode == 0 and os.path.exists(dest + '.pmcfg'):
+                    ev['files']['pmcfg'] = pmcfg_records(dest + '.pmcfg', atoms)
+                    ev['files']['lex'] = tok_records(dest + '.lex', atoms) if os.path.exists(dest + '.lex') else []
+                else:
+                    ev['stderr'] = p.stderr.decode('utf-8', 'replace')[-300:]
+                events.append(ev)
+            cli(lambda d: [rdest, d, 'treebank', '--src-format', 'rcg'], 'rcg')
+            if not binmode:
+                tb = os.path.join(tmp, 'tb.export')
+                with open(tb, 'w', encoding='utf-8') as f:
+                    for r in roots:
+                        to.export(r, f)
+                cli(lambda d: [tb, d, 'treebank'], 'export')
+    finally:
+        shutil.rmtree(tmp, ignore_errors=True)
+    return {'id': cid, 'origin': origin, 'events': events, 'tags': []}
